@@ -190,5 +190,6 @@ RULES = [
     ("C14.parked", lambda c, r: pat.shared(__import__("sa.rules.c16", fromlist=["x"]).rule_pause, "C14.parked", lambda x: "parks-empty-handed" in x["instance"] and "workqueue" not in x["instance"])(c, r)),   # the worker callback must not sit in a private batch of a helper parked for fork
     ("C14.rl", lambda c, r: pat.shared(__import__("sa.rules.c03", fromlist=["x"]).rule_enq, "C14.rl", lambda x: x["rule"] == "C03.rl" or x["status"] != "pass")(c, r)),   # start_poll hands its worker to a helper through call_rcu(): helper lookup and enqueue stay inside one read-side section, or the worker lands on a freed per-CPU helper and "eventually true" is lost
     ("C14.stopped", lambda c, r: pat.shared(__import__("sa.rules.c03", fromlist=["x"]).rule_handover_c03, "C14.stopped", lambda x: "STOPPED" in x["instance"] or "nonempty" in x["instance"] or x["status"] != "pass")(c, r)),   # the poll worker re-queues itself from the helper's last batch: a helper is emptied / freed only after it acknowledged STOPPED, or the re-queued worker is freed with it and no handle ever completes
+    ("C14.who", lambda c, r: pat.shared(__import__("sa.rules.c03", fromlist=["x"]).rule_who, "C14.who")(c, r)),   # start_poll picks its helper through get_call_rcu_data(): the selection state is written only by its setters (a cached pointer to a retired helper swallows the worker)
 ]
 FLOORS = {}
